@@ -25,7 +25,7 @@ CHECKS = {
  "C15": ("exploration", "exhaustive enumeration of every single-character edit of derived addresses through every acceptor, against a reference Base58Check codec",
          "For each hash/key and network every substitution, transposition, insertion and deletion of the derived address (plus wrong versions/lengths with correct checksums) is offered to all five acceptors; acceptance must equal the reference decoder's verdict; all constructors must agree on the canonical script.",
          "Reference Base58Check in internal/props/c15.go (math/big); known finding: NewAddressFromString path ignores the checksum (cannot be fixed without failing the repository's own tests).", "DESIGN.md §4 C15"),
- "C17": ("exploration", "exhaustive enumeration of all 65,025 version/network pairs and every single-character corruption of 40 encodings against a reference BIP276 codec",
+ "C17": ("exploration", "exhaustive enumeration of all 65,025 version/network pairs, every payload length 0..300 and every single-character corruption (all printable ASCII) of 40 encodings against a reference BIP276 codec",
          "All (version, network) pairs x prefixes x payload lengths are encoded and decoded and compared with the specified layout; every single-character substitution/insertion/deletion of valid texts must be rejected whenever the reference rejects.",
          "Reference codec in internal/props/c17.go; known findings: field order is network-then-version (pinned by the repository's own test), so texts with version != network fail layout and round trip.", "DESIGN.md §4 C17"),
  "C16": ("exploration", "exhaustive enumeration of every satoshi amount in a low range plus decimal-boundary amounts, and a product of transaction shapes/signing states, through both JSON dialects",
@@ -37,8 +37,8 @@ CHECKS = {
  "C10": ("exploration", "exhaustive bounded enumeration of change scenarios (shapes x destinations x quotes x amount placements) checked against the statement's post-conditions computed with a big-integer reference fee model",
          "Every scenario of the product space is run through Change/ChangeToAddress/ChangeToExistingOutput and the post-conditions (untouched outputs, no value creation, quoted fee <= fee left <= quoted fee + slack, unchanged only at/below dust) are evaluated on the result.",
          "Reference fee model internal/props/feeref.go (107-byte placeholder for unsigned P2PKH inputs).", "DESIGN.md §4 C10"),
- "C12": ("model_checking", "explicit-state exploration of the funding loop through the real Tx.Fund: every supplier history up to depth 4/5 over a 13-answer alphabet, with a reference loop in lockstep inside the supplier",
-         "The supplier is the nondeterministic environment; every history (breadth-complete up to the depth bound) x 6 start transactions x 4 quotes is replayed against the implementation and every supplier call is compared with the reference deficit; final inputs/outputs/error are compared with the reference loop. States, transitions and traces are counted by the run.",
+ "C12": ("model_checking", "explicit-state exploration of the funding loop through the real Tx.Fund: every supplier history up to depth 4/5 over a 16-answer alphabet, with a reference loop in lockstep inside the supplier",
+         "The supplier is the nondeterministic environment; every history (breadth-complete up to the depth bound) x 12 start transactions x 5 quotes is replayed against the implementation and every supplier call is compared with the reference deficit; final inputs/outputs/error are compared with the reference loop. States, transitions and traces are counted by the run.",
          "Reference fee model internal/props/feeref.go; all traces are executed on the implementation (no separate model language).", "DESIGN.md §4 C12"),
  "C04": ("exploration", "exhaustive enumeration of sign -> single-field mutation -> verify over keys, shapes, positions, 12 hash types and every mutation class, with the reference digest deciding what each hash type commits to",
          "Each input is signed through the library's signing path and verified by the interpreter; every single-field mutation at every position is then applied and the input must verify iff the reference digest is unchanged.",
